@@ -463,7 +463,8 @@ def run_cases(ctx, exe, cases, cnt, var, cov, dist, distinct, nested=False):
             for sig, bl in groups.items():
                 dist["signatures"][sig] = dist["signatures"].get(sig, 0) + 1
                 cjs = cj
-                if not nested and sig not in getattr(ctx, "shrunk_sigs", set()) and len(getattr(ctx, "shrunk_sigs", set())) < 2 \
+                if not nested and not c.get("longpath") and sig not in getattr(ctx, "shrunk_sigs", set()) \
+                        and len(getattr(ctx, "shrunk_sigs", set())) < 2 \
                         and not any(fd["property"] == ctx.prop and fd.get("status") == "open" and
                                     re.fullmatch(fd["signature"], sig) for fd in ctx.findings.get("findings", [])):
                     ctx.shrunk_sigs = getattr(ctx, "shrunk_sigs", set()) | {sig}
@@ -477,7 +478,7 @@ def run_cases(ctx, exe, cases, cnt, var, cov, dist, distinct, nested=False):
         if int(m["nent"]) != c["nent"]:
             ctx.disagreement("pcp expand", "flattened list has %s entries in the model, %d expected" % (m["nent"], c["nent"]), cj)
         if (c.get("conflict") or c.get("overwrite")) and not c.get("fsz") and not c.get("refused") and not asname(c) \
-                and var.get("skipref", 0) and not nested:
+                and var.get("skipref", 0) and not nested and not c.get("longpath"):
             deepcases.append((i, c, cj, f, replies, m))
         if all(r == "A" for r in replies) or (c.get("fsz") and not cp):
             dist["all_acks"] += 1
@@ -500,7 +501,15 @@ def run_cases(ctx, exe, cases, cnt, var, cov, dist, distinct, nested=False):
                 ctx.disagreement("pcp round trip file system", "; ".join(diffs[:4]), cj)
         else:
             dist["with_error_replies"] += 1
-            if f["c2s"] != "~":
+            if c.get("longpath"):
+                # (paths of 2-3 KiB: the session / deep models take minutes on them; these cases have the specification
+                # oracle, the round-trip correspondence above and the count of error records)
+                dist["long_error_line_cases"] = dist.get("long_error_line_cases", 0) + 1
+                nerr = sum(1 for r in replies if r.startswith("E:"))
+                if nerr != 1 + len(c.get("more_conflicts") or []):
+                    ctx.offender("isolation:error-records", "%d entries cannot be written, the receiver sent %d error records "
+                                 "(%s)" % (1 + len(c.get("more_conflicts") or []), nerr, replies[:12]), cj)
+            elif f["c2s"] != "~":
                 errcases.append((i, c, cj, f, replies, m))
         if len(cov["samples"]) < 3 and c["nent"] <= 6:
             cov["samples"].append(dict(case=cj, spec=sp[:200]))
@@ -737,7 +746,7 @@ def case_json(c):
                 overwrite=c["overwrite"].decode("latin-1") if c.get("overwrite") else None,
                 old_extra=c.get("old_extra", 50), refused=bool(c.get("refused")),
                 more_conflicts=[(a.decode("latin-1"), b) for a, b in c.get("more_conflicts") or []],
-                asname=[x.decode("latin-1") for x in c["asname"]] if c.get("asname") else None)
+                asname=[x.decode("latin-1") for x in c["asname"]] if c.get("asname") else None, longpath=bool(c.get("longpath")))
 
 
 def from_json(j, k):
@@ -755,7 +764,8 @@ def from_json(j, k):
                 destmode=int(j["destmode"], 8), subsec=any(n.nsec for s in j["sources"] for _, n in walk(mk(s["tree"]), [])),
                 old_extra=j.get("old_extra", 50), refused=j.get("refused", False),
                 more_conflicts=[(a.encode("latin-1"), b) for a, b in j.get("more_conflicts") or []],
-                asname=tuple(x.encode("latin-1") for x in j["asname"]) if j.get("asname") else None)
+                asname=tuple(x.encode("latin-1") for x in j["asname"]) if j.get("asname") else None,
+                longpath=bool(j.get("longpath")))
 
 
 def corpus(k0):
@@ -860,6 +870,28 @@ def classes():
                        srcs=[(b"", tree2())]))
         cs.append(dict(base, p=p, conflict=(b"tree/sub/deeper", "d"), more_conflicts=[(b"tree/z", "f"), (b"other", "d")],
                        srcs=[(b"", tree2()), (b"", d(b"other", [f(b"o1", 1)])), (b"", f(b"last", 2))]))
+    # error records LONGER than a line buffer (seeded change C11-13: pcp_response() reads the error text into a buffer of
+    # LINEBUFSIZE 2048 instead of BUFSIZ; the receiver builds the text from the full target path): entries refused at the
+    # bottom of a tree whose path on the target is about 2250 / 3450 bytes (every component <= NAME_MAX, the whole path <
+    # PATH_MAX), ONE refusal followed by files, and TWO refusals in a row followed by files and a directory -- every
+    # entry that is not refused must arrive intact and the client must have skipped exactly the refused data
+    def longtree(levels, kids):
+        t = d(b"bottom", kids)
+        for i in range(levels):
+            t = d(bytes([97 + i % 26]) * 200, [t], mt=1234560000 + i)
+        t.name = b"long%d" % levels
+        return t
+
+    def longpath(levels, leaf):
+        return b"/".join([b"long%d" % levels] + [bytes([97 + i % 26]) * 200 for i in range(levels - 2, -1, -1)] + [b"bottom", leaf])
+    for levels in (11, 17):
+        for p in (0, 1):
+            cs.append(dict(base, p=p, longpath=True, conflict=(longpath(levels, b"r1"), "f"),
+                           srcs=[(b"", longtree(levels, [f(b"r1", 40), f(b"ok1", B + 1), f(b"ok2", 3)])), (b"", f(b"last", 9))]))
+            cs.append(dict(base, p=p, longpath=True, conflict=(longpath(levels, b"r1"), "f"),
+                           more_conflicts=[(longpath(levels, b"r2"), "f")],
+                           srcs=[(b"", longtree(levels, [f(b"r1", 40), f(b"r2", B + 2), f(b"ok1", B + 1), f(b"ok2", 3),
+                                                         d(b"after", [f(b"k", 5)])])), (b"", f(b"last", 9))]))
     cs.append(dict(base, conflict=(b"single", "f"), srcs=[(b"", f(b"single", 9)), (b"", f(b"next", B + 3))]))
     cs.append(dict(base, reverse=True, host=b"n1.dom.ain", conflict=(b"single", "f"), srcs=[(b"", f(b"single", 9)), (b"", f(b"next", 3))]))
     # ---- an existing longer file is replaced, not patched
@@ -1224,6 +1256,20 @@ def multi_corpus(k0):
                  for j, (h, bl) in enumerate(((b"h1", b"f1"), (b"h2", b"f2")))]
         out.append(dict(k=k0 + len(out), multi=True, p=0, um=0o27 if urace else 0o22, conns=conns, cut="records", race=race,
                         urace=urace))
+    # one target finishes while the others are still delivering (seeded change C11-14: the -p umask(0) saved and put back by
+    # pcp_server(): the receiver that started first restores the process-wide umask under the others, 0666 arrives as 0640):
+    # the harness closes a connection as soon as its chunks are exhausted and waits until that receiver has returned.
+    # Files with group/other write bits under umask 027 / 077, with and without -p; the short connection first, last, in
+    # the middle of three
+    def econn(h, nfiles, withdir):
+        return dict(host=h, files=[(n, 10 + i, m, 1234567890 + i, 11 * i + len(h))
+                                   for i, (n, m) in enumerate(((b"f1", 0o666), (b"f2", 0o777), (b"f3", 0o4711), (b"data", 0o622))[:nfiles])],
+                    blocked=[], dir=withdir, dirblocked=False, senddata=False, overwrite=False)
+    for p in (1, 0):
+        for um in (0o27, 0o77):
+            for shape in (((b"h1", 1), (b"h2", 4)), ((b"h1", 4), (b"h2", 1)), ((b"h1", 4), (b"x", 1), (b"n3.dom.ain", 3))):
+                out.append(dict(k=k0 + len(out), multi=True, p=p, um=um, cut="records", race=None, urace=None, early=True,
+                                conns=[econn(h, n, n > 1) for h, n in shape]))
     # a DEEP tree from every host: the receivers are threads on small stacks (dsh.c: 128 KiB per target thread) and
     # _sink() recurses once per directory level (seeded change C11-9: an 8 KiB buffer in every frame)
     # (not much deeper: the sanitizer build needs more stack per frame than the shipped one)
@@ -1282,7 +1328,7 @@ def multi_ents(c):
 
 def multi_json(c):
     return dict(multi=True, preserve=c["p"], umask="%o" % c["um"], cut=c["cut"], race=list(c["race"]) if c.get("race") else None,
-                umask_race=list(c["urace"]) if c.get("urace") else None,
+                umask_race=list(c["urace"]) if c.get("urace") else None, early_end=bool(c.get("early")),
                 conns=[dict(host=cn["host"].decode(), files=[[f[0].decode("latin-1")] + list(f[1:]) for f in cn["files"]],
                             blocked=[b.decode("latin-1") for b in cn["blocked"]], dir=cn["dir"],
                             dirblocked=cn["dirblocked"], senddata=cn["senddata"], overwrite=cn["overwrite"],
@@ -1293,7 +1339,7 @@ def multi_json(c):
 def multi_from_json(j, k):
     return dict(k=k, multi=True, p=int(j["preserve"]), um=int(j["umask"], 8), cut=j["cut"],
                 race=tuple(j["race"]) if j.get("race") else None,
-                urace=tuple(j["umask_race"]) if j.get("umask_race") else None,
+                urace=tuple(j["umask_race"]) if j.get("umask_race") else None, early=bool(j.get("early_end")),
                 conns=[dict(host=cn["host"].encode(), files=[tuple([f[0].encode("latin-1")] + f[1:]) for f in cn["files"]],
                             blocked=[b.encode("latin-1") for b in cn["blocked"]], dir=cn["dir"],
                             dirblocked=cn["dirblocked"], senddata=cn["senddata"], overwrite=cn["overwrite"],
@@ -1320,7 +1366,7 @@ def run_multi(ctx, exe, cases, cnt, var, cov, dist):
         streams = [multi_stream(c, cn) for cn in c["conns"]]
         ops.append(["multi %s /%s %d 1 %o %d %s %s" % (j, CWD.decode(), c["p"], c["um"], len(streams), " ".join(
             "%s %s" % (hx(b"dest"), ",".join(hx(x) for x in chunks)) for chunks in streams),
-            "%d:%d" % c["race"] if c.get("race") else "u%d:%d" % c["urace"] if c.get("urace") else "-")])
+            "%d:%d" % c["race"] if c.get("race") else "u%d:%d" % c["urace"] if c.get("urace") else "e" if c.get("early") else "-")])
         index.append((c, None))
         mc = dict(p=c["p"], y=1, um=c["um"], dest=b"dest", stream=b"")
         mlines.append(c12_model_line(mc, ents, cnt, var))
@@ -1455,9 +1501,66 @@ def run_multi(ctx, exe, cases, cnt, var, cov, dist):
                              "umask %03o should have removed: %s" % (c["urace"][0], c["urace"][1], c["urace"][0],
                                                                     c["urace"][1], c["um"], "; ".join(diffs[:3])), cj)
                 continue
+        if c.get("early"):
+            dist["multi_early_end_cases"] = dist.get("multi_early_end_cases", 0) + 1
+        if diffs and c.get("early"):
+            # every connection answered exactly what it answers alone, yet the joint destination is not what the receivers
+            # produce one by one: something a receiver did on its way OUT (process-wide state put back) hit the others
+            ctx.offender("independent:files-depend-on-a-receiver-that-finished",
+                         "%d receivers in one process%s, umask %03o; the targets that had delivered everything closed their "
+                         "connections while the others were still sending: every connection got the replies of a receiver "
+                         "running alone, but the destination differs from what the receivers produce one by one: %s" % (
+                             len(c["conns"]), " with -p" if c["p"] else "", c["um"], "; ".join(diffs[:4])), cj)
+            continue
         if diffs:
             ctx.disagreement("pcp multi fs", "; ".join(diffs[:5]), cj)
     shutil.rmtree(jbase, ignore_errors=True)
+
+
+def run_responses(ctx, exe, cov, dist):
+    """the client's reply reader alone: the real pcp_response() (harness op `resp`) against Pcp/Response.lean `callN` on the
+    BYTES a receiver writes -- positive replies, error records (`\\01` + text + newline) and non-fatal ones (any other first
+    byte) with texts of every length around the line buffers (LINEBUFSIZE 2048, BUFSIZ 8192) up to 9000 bytes, one and two
+    long records in a row, followed by positive replies.
+    oracle: a sequence whose texts are all shorter than PATH_MAX + NAME_MAX + 64 (the longest a receiver builds for a
+    sender that sends the names of existing files: `<target path>: <strerror>`) must be read back record by record, nothing
+    left over (seeded change C11-13)."""
+    B = pcp.BUFSIZ
+    limit = read_const("PCP_PATH_MAX") + read_const("PCP_NAME_MAX") + 64
+    lens = [0, 1, 80, 1000, 2030, 2045, 2046, 2047, 2048, 2049, 2050, 3000, 4000, 4096, limit - 1, B - 4, B - 3, B - 2, B - 1, B,
+            B + 1, 9000]
+    seqs = []
+    for n in lens:
+        for first in (b"\x01", b"x"):
+            seqs.append([(first, n)] + [None])
+            seqs.append([(first, n), (b"\x01", n), None, (first, 40), None])
+            seqs.append([None, (first, n), None, None])
+    ops, mlines, wants = [], [], []
+    for sq in seqs:
+        stream = b"".join(b"\0" if r is None else r[0] + bytes(97 + (i * 7 + r[1]) % 26 for i in range(r[1])) + b"\n" for r in sq)
+        ncalls = len(sq) + 2
+        ops.append(["resp %d %s" % (ncalls, hx(stream))])
+        mlines.append("resp %d %s" % (ncalls, hx(stream)))
+        wants.append("res=%s left=0" % ("".join("0" if r is None or r[0] != b"\x01" else "1" for r in sq) + "11"))
+    impl = run_batch([exe], ops, env=dict(os.environ, ASAN_OPTIONS="detect_leaks=0"))
+    mans = ctx.model("pcp", "".join(l + "\n" for l in mlines))
+    for sq, (ans, crash), m, want in zip(seqs, impl, mans, wants):
+        cov["evaluations"] += 1
+        dist["reply_reader_sequences"] = dist.get("reply_reader_sequences", 0) + 1
+        cj = dict(reply_stream=[("ack" if r is None else ("fatal" if r[0] == b"\x01" else "error") + " record, text of %d bytes" % r[1])
+                                for r in sq])
+        real = ans[0] if ans else "crash %s" % str(crash)[-200:]
+        fits = all(r is None or r[1] < limit for r in sq)
+        if fits and real != want:
+            ctx.offender("reply-reader:error-record-not-read-whole",
+                         "pcp_response() called on the reply stream %s: expected the records back one by one and the end of "
+                         "input after them (%s), got %s: part of an error line stays in the stream and is taken for the "
+                         "replies to later records" % (cj["reply_stream"], want, real), cj)
+        elif real != m:
+            ctx.disagreement("pcp response (Pcp/Response.lean callN)", "reply stream %s: real %s model %s" % (
+                cj["reply_stream"], real, m), cj)
+        if not fits:
+            dist["reply_reader_beyond_every_buffer"] = dist.get("reply_reader_beyond_every_buffer", 0) + 1
 
 
 def run_refused_sources(ctx, exe, cov, dist):
@@ -1604,6 +1707,7 @@ def run(ctx):
         for i in range(0, len(cases), 500):
             run_cases(ctx, exe, cases[i:i + 500], cnt, var, cov, dist, distinct)
         run_refused_sources(ctx, exe, cov, dist)
+        run_responses(ctx, exe, cov, dist)
         mcases += multi_corpus(len(mcases))
         mcases += [gen_multi(rng, len(mcases) + i) for i in range(40 if ctx.quick() else 800)]
         for i in range(0, len(mcases), 200):
